@@ -121,10 +121,14 @@ func Decode(s *Schema, r *Rendered) (d *Decoded) {
 			right = hcl.MergeBodies([]hcl.Body{bodies[i], right})
 		}
 		right = hcl.MergeBodies([]hcl.Body{hcl.EmptyBody(), right, hcl.EmptyBody()})
-		for _, alt := range []struct {
+		alts := []struct {
 			name string
 			b    hcl.Body
-		}{{"left-nested", left}, {"right-nested", right}} {
+		}{{"left-nested", left}, {"right-nested", right}}
+		if !r.BothNestings {
+			alts = alts[:1] // quick: one nesting (a merged body in front of further arguments)
+		}
+		for _, alt := range alts {
 			ab := alt.b
 			if r.Expand {
 				ab = dynblock.Expand(ab, ctx)
